@@ -64,8 +64,33 @@ func checkC02(w *World, r *Report) {
 // depCheckFn: the dependency check of the scheduler — (graph, stage) → bool, whatever its name.
 func depCheckFn(w *World) *ssa.Function {
 	return w.FuncByRole("taskctl", "checkStatus", func(f *ssa.Function) bool {
-		return recvIs(f, "") && sigHas(f, []string{"scheduler.ExecutionGraph", "scheduler.Stage"}, []string{"bool"})
+		if f.Signature.Results().Len() != 1 || f.Signature.Results().At(0).Type().String() != "bool" || f.Signature.Params().Len() != 2 {
+			return false
+		}
+		if f.Signature.Recv() != nil && !recvIs(f, "Scheduler") {
+			return false
+		}
+		g, st := 0, 0
+		for i := 0; i < 2; i++ {
+			switch {
+			case strings.HasSuffix(f.Signature.Params().At(i).Type().String(), "scheduler.ExecutionGraph"):
+				g++
+			case strings.HasSuffix(f.Signature.Params().At(i).Type().String(), "scheduler.Stage"):
+				st++
+			}
+		}
+		return g == 1 && st == 1
 	})
+}
+
+// stageParamAP: the access path of fn's *scheduler.Stage parameter.
+func stageParamAP(w *World, fn *ssa.Function) string {
+	for _, p := range fn.Params {
+		if strings.HasSuffix(p.Type().String(), "scheduler.Stage") {
+			return w.AP(p)
+		}
+	}
+	return "arg1"
 }
 
 // runStageFn: the scheduler method that runs one stage — (*Stage) → error, whatever its name.
@@ -145,8 +170,17 @@ func launchGate(w *World, r *Report, rule string) {
 					if a.Op == "==" && strings.HasSuffix(a.L, ".ReadStatus("+stage+")") && a.R == waiting && prev.Lit.Val {
 						sawWaiting = true
 					}
-					if a.Op == "true" && depName != "" && strings.HasSuffix(a.L, depName+"(arg0,"+stage+")") && prev.Lit.Val {
-						depOK = true
+					// the dependency check applied to this stage and the scheduled graph (arguments in either order, with or without receiver)
+					if a.Op == "true" && depName != "" && prev.Lit.Val && strings.Contains(a.L, depName+"(") && strings.HasSuffix(a.L, ")") {
+						args := splitArgs(a.L[strings.Index(a.L, depName+"(")+len(depName)+1 : len(a.L)-1])
+						hasStage, hasGraph := false, false
+						for _, x := range args {
+							hasStage = hasStage || x == stage
+							hasGraph = hasGraph || x == "arg0"
+						}
+						if hasStage && hasGraph {
+							depOK = true
+						}
 					}
 				}
 				if prev.Eff != nil && prev.Eff.Kind == "call" && strings.HasSuffix(prev.Eff.Target, ".UpdateStatus") && prev.Eff.Val == stage+","+running {
@@ -309,7 +343,7 @@ func depVerdict(w *World, r *Report, rule string) {
 			kept := p.BackPhi[flag] == "<unchanged>"
 			marked := false
 			for _, e := range p.Effects {
-				if e.Kind == "call" && strings.HasSuffix(e.Target, ".UpdateStatus") && e.Val == "arg1,"+fmt.Sprint(st["Canceled"]) {
+				if e.Kind == "call" && strings.HasSuffix(e.Target, ".UpdateStatus") && e.Val == stageParamAP(w, cs)+","+fmt.Sprint(st["Canceled"]) {
 					marked = true
 				} else if e.Kind == "call" && strings.HasSuffix(e.Target, ".UpdateStatus") {
 					bad = "sets the waiting stage to status " + e.Val
@@ -327,7 +361,7 @@ func depVerdict(w *World, r *Report, rule string) {
 	// all predecessors are iterated, and the result is the loop-carried flag
 	okTo := false
 	allInstrs(cs, func(in ssa.Instruction) {
-		if c, ok := in.(*ssa.Call); ok && strings.HasSuffix(calleeName(&c.Call), "scheduler.(ExecutionGraph).To") && w.AP(c.Call.Args[1]) == "arg1.Name" {
+		if c, ok := in.(*ssa.Call); ok && strings.HasSuffix(calleeName(&c.Call), "scheduler.(ExecutionGraph).To") && w.AP(c.Call.Args[1]) == stageParamAP(w, cs)+".Name" {
 			okTo = true
 		}
 	})
